@@ -51,8 +51,23 @@ theorem n16f32_all (v : Nat) (hv : v < 65536) : n16f32 v = roundF32 (unorm 16 v)
 theorem s16f32_all (v : Nat) (hv : v < 65536) : s16f32 v = roundF32 (snorm 16 v) :=
   chkS16_sound v hv (chkS16_all v hv)
 
-theorem half_f32_all := half_f32_of chkHalf_all
-theorem half_n8_all := half_n8_of chkHalf_all
-theorem half_n16_all := half_n16_of chkHalf_all
+theorem half_f32_all (x : Nat) (hx : x < 65536) :
+    match smallFloat 10 true x with
+    | some v => smallF32 10 true x = if v = 0 then (if x < 32768 then 0 else signBit) else roundF32 v
+    | none => if x % 1024 = 0 then smallF32 10 true x = (if x < 32768 then posInf else negInf)
+        else isNaN (smallF32 10 true x) = true :=
+  half_f32_of chkHalf_all x hx
+
+theorem half_n8_all (x : Nat) (hx : x < 65536) :
+    ((smallN8 10 true x : Nat) : Int) = match smallFloat 10 true x with
+      | some v => toCode 255 v
+      | none => if x % 1024 = 0 ∧ x < 32768 then 255 else 0 :=
+  half_n8_of chkHalf_all x hx
+
+theorem half_n16_all (x : Nat) (hx : x < 65536) :
+    ((smallN16 10 true x : Nat) : Int) = match smallFloat 10 true x with
+      | some v => toCode 65535 v + (if 14337 ≤ x ∧ x ≤ 14340 then 1 else 0)
+      | none => if x % 1024 = 0 ∧ x < 32768 then 65535 else 0 :=
+  half_n16_of chkHalf_all x hx
 
 end Dds.ConvFast
